@@ -178,7 +178,7 @@ pub fn run(ctx: &Ctx) -> (Acc, String, bool) {
     let ex_total = *offs.last().unwrap();
     let nops = OPERATORS.len() as u64;
     let pair_total = nops * nops;
-    let random_total: u64 = ctx.pick(60_000, 3_000_000);
+    let random_total: u64 = ctx.pick(400_000, 15_000_000);
     let seed = ctx.seed;
     let acc = run_cases(ctx, ex_total + pair_total + random_total, |i, acc| {
         if i < ex_total {
